@@ -8,7 +8,7 @@ from lang import *  # noqa
 from props.common import sub_rng, diff_runs, replay_generic, corpus_cases
 
 replay = replay_generic
-KEYS_ = ['k', 'v', 'বয়স', 'len']
+KEYS_ = ['k', 'v', 'ব\u09dfস', 'len']
 OPS = [('lit', n) for n in range(0, 4)] + [('alias', None)] + [('read', k) for k in KEYS_] + [('write', k) for k in KEYS_] + [('del', k) for k in KEYS_] + \
       [('list', None), ('nest', None), ('readnon', None), ('delnum', None)]
 
@@ -127,7 +127,8 @@ def run(env, tier, seed, broken=None):
         for r in ri[c['id']]:
             got = r['stdout'].decode('utf-8', 'replace').split('\n')[:-1]
             nontriv.add(tuple(got[-2:]))
-            if got != e[0] or (r['status'] == 70) != e[1]:
+            import unicodedata
+            if got != [unicodedata.normalize('NFC', x) for x in e[0]] or (r['status'] == 70) != e[1]:
                 mism.append({'case': c, 'reason': 'differs from the pure map model: implementation %s (status %s), map model %s (fault %s)' % (got[-3:], r['status'], e[0][-3:], e[1])})
                 break
     return {'evaluations': sum(len(ri[c['id']]) for c in cases), 'distinct_nontrivial': len(nontriv), 'mismatches': mism,
